@@ -6,7 +6,7 @@ dst = f"/verif/seeded/{name}"
 os.makedirs(dst + "/demo", exist_ok=True)
 shutil.copy(src + "/patch.diff", dst + "/patch.diff")
 for f in glob.glob(src + "/demo/*"):
-    shutil.copy(f, dst + "/demo/")
+    if os.path.isfile(f): shutil.copy(f, dst + "/demo/")
 if os.path.exists(src + "/README.md"):
     shutil.copy(src + "/README.md", dst + "/README.md")
 meta = {
